@@ -142,6 +142,17 @@ package contractcourt
 //@        arg(2).LocalBalance == chainSet.remotePendingCommit.LocalBalance && arg(2).RemoteBalance == chainSet.remotePendingCommit.RemoteBalance
 //@   site call dispatchRemoteForceClose nth 1: assert arg(1) == commitSpend && arg(3).ConfCommitKey.isSome && arg(3).ConfCommitKey.some == RemotePendingHtlcSet &&
 //@        arg(4) == c.cfg.chanState.RemoteNextRevocation && chainSet.remotePendingCommit != nil
+//@   // which spend is which: the remote force close is dispatched exactly for a spend whose hash is that of the current (resp. pending)
+//@   // remote commitment; 'handled' is reported only after a dispatch (or by the breach check); a restored channel is left to the
+//@   // data-loss path
+//@   site call dispatchRemoteForceClose nth 0 as current-commit-hash: assert ret(TxHash, 1) == ret(TxHash, 0) && !ret(HasChanStatus)
+//@   site call dispatchRemoteForceClose nth 1 as pending-commit-hash: assert ret(TxHash, 2) == ret(TxHash, 0) && ret(TxHash, 1) != ret(TxHash, 0) && !ret(HasChanStatus)
+//@   site call handlePossibleBreach as neither-known-commitment: assert !ret(HasChanStatus) && ret(TxHash, 1) != ret(TxHash, 0) &&
+//@        (chainSet.remotePendingCommit == nil || ret(TxHash, 2) != ret(TxHash, 0))
+//@   ensures result1 == nil && result0 ==> called(dispatchRemoteForceClose, 0) || called(dispatchRemoteForceClose, 1) || called(handlePossibleBreach)
+//@   site call TxHash nth 0: assert arg(0) == commitSpend.SpendingTx
+//@   site call TxHash nth 1: assert arg(0) == chainSet.remoteCommit.CommitTx
+//@   site call TxHash nth 2: assert arg(0) == chainSet.remotePendingCommit.CommitTx
 //@
 //@ func (c *chainWatcher) handlePossibleBreach
 //@   props C04
